@@ -21,6 +21,9 @@ pub open spec fn ew_idx(s: Seq<char>, r: char) -> bool { s.len() >= 2 && s[s.len
 #[verifier::external_body] pub fn ends_with_y(s: &String) -> (r: bool) ensures r == ew_idx(s@, 'Y') { s.ends_with(",Y") }
 #[verifier::external_body] pub fn is_imm0(s: &String) -> (r: bool) ensures r == (s@ == "#0"@) { s == "#0" }
 #[verifier::external_body] pub fn is_with_suffix(a: &String, b: &String, lit: &str) -> (r: bool) ensures r == (a@ == b@ + lit@) { a.strip_suffix(lit) == Some(b.as_str()) }
+// an immediate operand text that is a number (`#` followed by the digits of an i32): what str::parse::<i32> accepts of the text after `#`
+pub uninterp spec fn numeric_imm(s: Seq<char>) -> bool;
+#[verifier::external_body] pub fn imm_is_number(s: &String) -> (r: bool) ensures r == numeric_imm(s@) { s.len() > 1 && s[1..].parse::<i32>().is_ok() }
 // the multipeek look-ahead: arbitrary lines (sound over-approximation of iter.peek())
 pub struct Peek { pub k: u8 }
 impl Peek { #[verifier::external_body] pub fn peek(&mut self) -> (r: Option<&AsmLine>) { unimplemented!() } }
@@ -53,7 +56,8 @@ pub open spec fn rm1_sound(a: Option<&AsmLine>, b: Option<&AsmLine>) -> bool {
 // compare of a register known to hold an immediate with an immediate, followed by a branch that is then never taken
 pub open spec fn cmp_fold(k: Option<String>, cmp: AsmMnemonic, a: Option<&AsmLine>, b: Option<&AsmLine>) -> bool {
     k is Some && sw_hash(k->Some_0@) && mm(a, cmp) && sw_hash(ins(a).dasm_operand@)
-    && ((mm(b, AsmMnemonic::BNE) && k->Some_0@ == ins(a).dasm_operand@) || (mm(b, AsmMnemonic::BEQ) && k->Some_0@ != ins(a).dasm_operand@))
+    // equal texts are equal values; different texts are different values only between numbers (`#<sym` may be 16)
+    && ((mm(b, AsmMnemonic::BNE) && k->Some_0@ == ins(a).dasm_operand@) || (mm(b, AsmMnemonic::BEQ) && k->Some_0@ != ins(a).dasm_operand@ && numeric_imm(k->Some_0@) && numeric_imm(ins(a).dasm_operand@)))
 }
 pub open spec fn both_sound(a: Option<&AsmLine>, b: Option<&AsmLine>, acc: Option<String>, x: Option<String>, y: Option<String>) -> bool {
     (mm(a, AsmMnemonic::PLA) && mm(b, AsmMnemonic::PHA))
@@ -115,6 +119,7 @@ def r15(c):
     c.sub(r"(\w+(?:\.\w+)*) == \"#0\"", r"is_imm0(&\1)", "R15 == \"#0\"")
     c.sub(r"\b(\w+)\.eq\(&(\w+(?:\.\w+)*)\)", r"(*\1 == \2)", "R15 a.eq(&b) -> *a == b")
     c.sub(r"(\w+(?:\.\w+)*)\.strip_suffix\((\"[^\"]*\")\) == Some\((\w+(?:\.\w+)*)\.as_str\(\)\)", r"is_with_suffix(&\1, &\3, \2)", "R15 a.strip_suffix(lit) == Some(b.as_str()) -> a == b + lit", expect=(0, 4))
+    c.sub(r"\*?\b(\w+(?:\.\w+)*)\[1\.\.\]\.parse::<i32>\(\)\.is_ok\(\)", r"imm_is_number(&\1)", "R15 s[1..].parse::<i32>().is_ok() -> shim (the text after `#` is a number)", expect=(0, 8))
     common.r15_contains_lit(c)
     c.sub(r"starts_with_hash\(&(r|v)\)", r"starts_with_hash(\1)", "R15 (already a reference)")
     c.sub(r"ends_with_([xy])\(&(r|v)\)", r"ends_with_\1(\2)", "R15 (already a reference)")
@@ -218,6 +223,9 @@ pub fn knowledge_transfer(second: Option<&AsmLine>, iter: &mut Peek, accumulator
             (r.0 is None || sw_hash(r.0->Some_0@) || (ins(second).mnemonic == AsmMnemonic::STA && known(r.0, ins(second).dasm_operand@)))
             && (r.1 is None || sw_hash(r.1->Some_0@) || (ins(second).mnemonic == AsmMnemonic::STX && known(r.1, ins(second).dasm_operand@)))
             && (r.2 is None || sw_hash(r.2->Some_0@) || (ins(second).mnemonic == AsmMnemonic::STY && known(r.2, ins(second).dasm_operand@)))), //@ C02,C17:xfer-store-forgets-aliases
+        // INC / DEC / a shift of memory: like a store, under any operand text (`a+1` and `a,X` may be one cell)
+        ((!remove_second && !remove_both) && writes_mem(ins(second).mnemonic, ins(second).dasm_operand@) && !is_store(ins(second).mnemonic) ==>
+            (r.0 is None || sw_hash(r.0->Some_0@)) && (r.1 is None || sw_hash(r.1->Some_0@)) && (r.2 is None || sw_hash(r.2->Some_0@))), //@ C02:xfer-memory-write-forgets-aliases
         ((!remove_second && !remove_both) && r.3 == FlagsState::A ==> nz_is_a(ins(second).mnemonic, ins(second).dasm_operand@) || (flags == FlagsState::A && nz_kept(ins(second).mnemonic))), //@ C02:xfer-flags-a
         // the same for X and Y: TXA keeps a belief about X true (N/Z of the value copied), TYA / PLA / ADC ... do not
         ((!remove_second && !remove_both) && r.3 == FlagsState::X && r.1 is Some ==> nz_is_x(ins(second).mnemonic) || (flags == FlagsState::X && (nz_untouched(ins(second).mnemonic) || ins(second).mnemonic == AsmMnemonic::TXA))), //@ C02:xfer-flags-x
